@@ -92,7 +92,7 @@ impl<R: Read> Reader<R> {
 //@@ safety C14 C17
 //@@ ret r
 //@@ header
-        ensures r.fresh_over(source(reader), name), // @obl R.new.lazy : C14 C17 C01 C06 C16 C20
+        ensures r.fresh_over(source(reader), name), // @obl R.new.lazy : C14 C17 C01 C06 C16 C20 C11
 //@@ endfn
     // a reader that has looked at nothing yet: the whole source is still unread
     pub open spec fn fresh_over(&self, src: Seq<Option<u8>>, name: Option<String>) -> bool {
@@ -106,7 +106,7 @@ impl<R: Read> Reader<R> {
 //@@ safety C14 C17
 //@@ ret r
 //@@ header
-    ensures r.fresh_over(source(stdin), None), // @obl R.from_std_in.lazy : C14 C17 C01 C06 C16 C20
+    ensures r.fresh_over(source(stdin), None), // @obl R.from_std_in.lazy : C14 C17 C01 C06 C16 C20 C11
 //@@ endfn
 //@@ fn reader.from_file = src/reader.rs :: fn from_file
 //@@ safety C14 C17
@@ -115,7 +115,7 @@ impl<R: Read> Reader<R> {
 //@@ body-start
     broadcast use vopen::ax_path_of_ref;
 //@@ header
-    ensures r is Ok ==> r->Ok_0.fresh_over(file_source(*file_name), path_name(*file_name)), // @obl R.from_file.lazy : C14 C17 C01 C06 C16 C20
+    ensures r is Ok ==> r->Ok_0.fresh_over(file_source(*file_name), path_name(*file_name)), // @obl R.from_file.lazy : C14 C17 C01 C06 C16 C20 C11
 //@@ endfn
 
 } // verus!
